@@ -223,3 +223,109 @@ func init() {
 			Opts: vrt.Options{Delay: true, Sites: true}, Run: workersLasso(c.loopers, c.rounds, c.counts), Check: lassoCheck})
 	}
 }
+
+// recoverLog runs f and logs whether it panicked (a documented refusal of invalid input).
+func recoverLog(what string, f func()) {
+	defer func() {
+		if r := recover(); r != nil {
+			vrt.Log("refused", what)
+		}
+	}()
+	f()
+	vrt.Log("not-refused", what)
+}
+
+// W-misuse: a refused (panicking, recovered) Call - count 0, a negative count, a nil function - at
+// any point of ordinary traffic must leave the pool usable: the valid Calls run exactly once and
+// return, Wait returns, Count is 0.
+func workersMisuse() {
+	var w Workers
+	var wg sync.WaitGroup
+	kind := vrt.Choose(3, 0)
+	wg.Add(1)
+	go func() {
+		defer wg.Done()
+		recoverLog("invalid-call", func() {
+			switch kind {
+			case 0:
+				w.Call(0, func() (interface{}, error) { return nil, nil })
+			case 1:
+				w.Call(-1, func() (interface{}, error) { return nil, nil })
+			default:
+				w.Call(1, nil)
+			}
+		})
+	}()
+	for i := 0; i < 2; i++ {
+		wg.Add(1)
+		go func() {
+			defer wg.Done()
+			name := fmt.Sprintf("f%d", i)
+			vrt.Log("call", i, 1)
+			r, err := w.Call(1, func() (interface{}, error) {
+				vrt.Log("start", i)
+				vrt.Point()
+				vrt.Log("end", i)
+				if i%2 == 1 {
+					return nil, fmt.Errorf("err-%s", name)
+				}
+				return name, nil
+			})
+			rs, es := outcomeStr(r, err)
+			vrt.Log("ret", i, rs, es)
+		}()
+	}
+	wg.Wait()
+	vrt.Log("joined")
+	w.Wait()
+	vrt.Log("waited", w.Count())
+}
+
+// V-misuse: Do(nil) is refused by a panic; recovered while an instance is held (or not), it must not
+// disturb the Worker: the instance is stopped once nobody holds it and a later Do starts a new one.
+func workerMisuse() {
+	var w Worker
+	fn := func(stop <-chan struct{}) {
+		vrt.Log("fnstart", 1)
+		<-stop
+		vrt.Log("sawstop", 1)
+		vrt.Log("exit", 1)
+	}
+	var wg sync.WaitGroup
+	wg.Add(2)
+	go func() {
+		defer wg.Done()
+		vrt.Log("docall", 1)
+		done := w.Do(fn)
+		vrt.Log("held", 1, 0)
+		vrt.Point()
+		vrt.Log("release", 1, 0)
+		done()
+	}()
+	go func() {
+		defer wg.Done()
+		recoverLog("do-nil", func() { w.Do(nil) })
+	}()
+	wg.Wait()
+	// one more hold: it must be granted, and every earlier instance must have been shut down
+	fn2 := func(stop <-chan struct{}) {
+		vrt.Log("fnstart", 2)
+		<-stop
+		vrt.Log("sawstop", 2)
+		vrt.Log("exit", 2)
+	}
+	done := w.Do(fn2)
+	vrt.Log("held", 2, 0)
+	vrt.Log("release", 2, 0)
+	done()
+	vrt.Log("joined")
+}
+
+func init() {
+	vrt.Register(&vrt.Scenario{Name: "W-misuse", Props: []string{"C14", "C11:race", "C12:goroutine-leak"}, Quick: 3, Thorough: 5,
+		Desc: "a refused Workers.Call (count 0 / negative count / nil function; the panic is recovered) concurrent with two valid Calls; then Wait and Count",
+		Opts: vrt.Options{Delay: true}, Run: workersMisuse, Check: workersMisuseCheck})
+	vrt.Register(&vrt.Scenario{Name: "V-misuse", Props: []string{"C17", "C11:race", "C12:goroutine-leak"}, Quick: 3, Thorough: 5,
+		Desc: "Worker.Do(nil) (refused by a panic, recovered) concurrent with a holder; then a further Do",
+		Opts: vrt.Options{Delay: true}, Run: workerMisuse, Check: workerMisuseCheck})
+}
